@@ -319,7 +319,7 @@ def run_check(prop, tier, seed, nruns=None, workers=None, selfcheck=None):
         if v["sig"] in seen_sigs:
             continue
         seen_sigs.add(v["sig"])
-        if len(reported) >= 3:
+        if len(reported) >= int(os.environ.get("VERIF_MAXREPORT", "3")):
             break
         path, info = minimise_and_report(prop, seed, tier, v)
         if path is None:
